@@ -134,7 +134,20 @@ func typeConfusion(ca, cb string) bool {
 		}
 		return false
 	}
-	return check(onlyA, onlyB) || check(onlyB, onlyA)
+	// leaf/branch confusion at the root: one content is a single key of 0 or 64 nibbles whose value holds the
+	// rest of a branch encoding (hence at least 14 separator bytes), the other content has >= 2 keys
+	leafFull := func(one, many map[string]string) bool {
+		if len(one) != 1 || len(many) < 2 || len(a) != len(onlyA) || len(b) != len(onlyB) {
+			return false
+		}
+		for k, v := range one {
+			if (len(k) == 0 || len(k) == 64) && strings.Count(v, "3a") >= 14 {
+				return true
+			}
+		}
+		return false
+	}
+	return check(onlyA, onlyB) || check(onlyB, onlyA) || leafFull(onlyA, onlyB) || leafFull(onlyB, onlyA)
 }
 
 func contentKey(version int64, m map[string][]byte) string {
